@@ -256,6 +256,11 @@ def gen_plan_c07(rng, tier, idx, opts):
         if not plan["incarnations"] or rng.random() < 0.5:
             plan["incarnations"].append({"params": "P1", "call": {"kind": "all"}, "fault": None})
         plan["incarnations"].append({"params": "P2", "call": {"kind": "all"}, "fault": None})
+        if kind == "fixed_value" and rng.random() < 0.5:
+            # the SAME runner object is kept and the parameter is changed on it by item assignment (runner.params[k] = v)
+            ch_ = [k_ for k_ in c2["fixed"] if json.dumps(c2["fixed"][k_], sort_keys=True) != json.dumps(cfg["fixed"].get(k_), sort_keys=True)]
+            if len(ch_) == 1:
+                plan["incarnations"][-1]["live_setitem"] = ch_[0]
     else:
         fin_call = {"kind": "all"}
         if use_index and rng.random() < 0.3:
@@ -404,6 +409,7 @@ def gen_plan_c05(rng, tier, idx, opts):
         if k > 0 and not has_name and rng.random() < 0.3:
             # the grid itself changes on the live runner: a parameter is un-marked / a list-valued one is marked for unpacking
             cands = [("unmark", nm) for nm in sorted(cfg["unpacked"])] + [("mark", nm) for nm, v in sorted(cfg["fixed"].items()) if isinstance(v, (list, dict))]
+            cands += [("reverse_in_hook", nm) for nm in sorted(cfg["unpacked"]) if len(cfg["unpacked"][nm]["values"]) > 1]
             if cands:
                 a, nm = rng.choice(cands)
                 inc["regrid"] = {a: nm}
